@@ -67,16 +67,24 @@ func runC16(raw json.RawMessage, w *Writer) {
 		var out []byte
 		var err error
 		var head, tail bool
+		heads, tails := []bool{}, []bool{}
 		res, msg := guard(func() {
 			out, err = pkt.Unmarshal(input)
 			head = pkt.IsPartitionHead(input)
 			tail = pkt.IsPartitionTail(false, input) && pkt.IsPartitionTail(true, input)
+			// "always": whatever payload is asked about, also the ones Unmarshal rejects, on a used and on a fresh packet
+			for _, q := range [][]byte{nil, {}, {0}, pristine} {
+				var fresh codecs.OpusPacket
+				heads = append(heads, pkt.IsPartitionHead(q), fresh.IsPartitionHead(q))
+				tails = append(tails, pkt.IsPartitionTail(false, q), pkt.IsPartitionTail(true, q), fresh.IsPartitionTail(true, q))
+			}
 		})
 		if res == "ok" && err != nil {
 			res = "err"
 		}
 		e := ev("depack")
 		e["res"], e["out"], e["head"], e["tail"], e["diag"] = res, ints(out), head, tail, msg
+		e["heads"], e["tails"] = heads, tails
 		w.Emit(e)
 		return
 	}
